@@ -819,7 +819,9 @@ class _Parser:
         inherit_key = '$inherit'
 
         if inherit_key in node:
-            assert type(node[inherit_key]) is collections.OrderedDict
+            if type(node[inherit_key]) is not collections.OrderedDict:
+                raise _ConfigurationParseError(f'`{inherit_key}` property',
+                                               'Inherited field type is not a field type object')
 
             # apply inheritance below
             self._apply_ft_inheritance(node, inherit_key)
